@@ -18,3 +18,8 @@ check('C08',
   'Trusted: Kani/CBMC; the instantiation of the generics; Random answers arbitrary values within the documented contract. Rosomaxa population (GSOM, Environment) and seeded full solves are outside.',
   'Kani/CBMC bounded model checking, inductive step from symbolic pre-state',
   'DESIGN.md section 3 C08')
+check('C10',
+  'Bounded model checking of the time-window rule kernel that E1103, E1302, E1303 and E1304 share (check_time_windows, check_shift_time_windows in the real crate): for 1..3 (quick) / 4 (thorough) windows with symbolic bounds and symbolic parsed/unparsed flags the list is accepted exactly when the documented rule holds (every window parsed, start<=end, pairwise non-intersecting unless skipped, breaks/reloads intersect the shift), and the kernel is total (no panic) for arbitrary f64 bit patterns. Only this kernel of the property is claimed: JSON/serde, RFC3339 parsing, id/duplicate/relation/objective/routing rules are outside.',
+  'Trusted: Kani/CBMC, slice::sort_by as compiled. Window bounds are i16 widened to f64. The empty list is only checked for totality (documentation silent).',
+  'Kani/CBMC bounded model checking of in-crate harnesses vs. a pairwise declarative rule',
+  'DESIGN.md section 3 C10')
